@@ -757,7 +757,8 @@ def run(seed, tier, budget_s):
     while i < n and batch.elapsed() < budget_s:
         plans = [gen_plan(core.run_rng(seed, PID, j), j)
                  for j in range(i, min(n, i + step))]
-        for p, r in zip(plans, core.map_plans(MOD, plans)):
+        _res = core.map_plans(MOD, plans)
+        for p, r in zip(plans, _res):
             batch.add(p, r)
             if r['verdict'] == 'ok' and r.get('nontrivial') and \
                     len(batch.samples) < 3 and p['route'] != 'server':
@@ -766,6 +767,9 @@ def run(seed, tier, budget_s):
                     'peer_targets': p['peer']['targets'][:6],
                     'first_file_head': docgen.file_text(
                         p['files'][p['names'][0]])[:300]})
+        if i == 0:
+            core.cross_validate(MOD, batch, list(zip(plans, _res)),
+                                12 if tier == 'quick' else 60)
         i += step
     rule = ('One case = one seeded scenario plan: 1-3 generated LaTeX documents '
             '(unique words, footnotes/captions, non-ASCII, multi-language '
